@@ -255,7 +255,8 @@ OBLIGATIONS += [
     _d("D7.follow", "d7_recorded_max_follows", ["C01"], "set_block_hash raises the recorded maximum and the cached height for a new highest block",
        "concrete heights", q=TD(900), th=TD(1500)),
     _d("D11", "d11_block_exists_guard", ["C05"], "require_block_does_not_exist rejects iff the number (cached or stored) or the hash is known",
-       "all presence combinations, concrete number/hash", q=TD(900), th=TD(1500)),
+       "all presence combinations, concrete number/hash", q=TD(900, stubbing=True), th=TD(1500, stubbing=True),
+       stubs=["alloc::fmt::format stubbed (error message text)"]),
 ]
 
 ENG = "engine::engine::verif_e::"
@@ -263,8 +264,8 @@ API = "api::types::verif_p::"
 LOCK = "engine::precompiles::get_locked_pkscript_precompile::verif_lock::"
 
 
-def TE(timeout=900):
-    return T(unwind=10, unwindset=LONG_LOOPS, timeout=timeout, kmax=40, vmax=40, rcap=4)
+def TE(timeout=900, stubbing=False):
+    return T(unwind=10, unwindset=LONG_LOOPS, timeout=timeout, kmax=40, vmax=40, rcap=4, stubbing=stubbing)
 
 
 def _k(oid, h, props, what, bounds, q=None, th=None, inst="-", **kw):
@@ -283,11 +284,11 @@ OBLIGATIONS += [
     _k("E2", ENG + "e2_reorg_acceptance", ["C01", "C05"], "engine reorg(n): Err above the height and more than 10 below it, Ok (no-op) at the height - never a storage or lock write",
        "all heights < 2^62, all n outside (height-10, height)", q=TE(), th=TE(), inst="BRC20ProgEngine over the lock model"),
     _k("E3.unknown", ENG + "e3_validate_next_tx_unknown_block", ["C05"], "validate_next_tx (block unknown) accepts exactly: idx = count and (count = 0 or same timestamp and hash); no lock write",
-       "all counts, timestamps and indexes; same / different hash (two concrete values)", q=TE(900), th=TE(1800), inst="BRC20ProgEngine over the lock model"),
+       "all counts, timestamps and indexes; same / different hash (two concrete values)", q=TE(900, True), th=TE(1800, True), inst="BRC20ProgEngine over the lock model", stubs=["alloc::fmt::format stubbed (error message text)"]),
     _k("E3.number", ENG + "e3_validate_next_tx_known_number", ["C05"], "validate_next_tx rejects every call for a block number that already exists",
-       "as E3.unknown, number 20 known (uncommitted)", q=TE(900), th=TE(1800), inst="BRC20ProgEngine over the lock model"),
+       "as E3.unknown, number 20 known (uncommitted)", q=TE(900, True), th=TE(1800, True), inst="BRC20ProgEngine over the lock model", stubs=["alloc::fmt::format stubbed (error message text)"]),
     _k("E3.hash", ENG + "e3_validate_next_tx_known_hash", ["C05"], "validate_next_tx rejects every call whose block hash already exists",
-       "as E3.unknown, one hash known (uncommitted)", q=TE(900), th=TE(1800), inst="BRC20ProgEngine over the lock model"),
+       "as E3.unknown, one hash known (uncommitted)", q=TE(900, True), th=TE(1800, True), inst="BRC20ProgEngine over the lock model", stubs=["alloc::fmt::format stubbed (error message text)"]),
     _k("E7", ENG + "e7_generated_hash_nonzero", ["C09", "C02"], "generate_block_hash(n) is never the zero hash and is injective",
        "all n, m < 2^64-1", q=T(unwind=34, unwindset={"memcmp.0": 34}, timeout=600), th=T(unwind=34, unwindset={"memcmp.0": 34}, timeout=600)),
     _k("P5", API + "p5_select_bytes_exactly_one", ["C05", "C15"], "select_bytes is Ok iff exactly one of the two encodings is present",
@@ -330,6 +331,18 @@ OBLIGATIONS += [
        "all pairs of 64-bit inputs", ["engine::utils::get_gas_limit"]),
     _s("P2", "smt_key", "run", ["C14", "C18", "C02"], "(block<<64|index) key: order = lexicographic order of (block, index), injective, a block's rows form one contiguous key range",
        "all 64-bit block numbers and indexes", ["db::brc20_prog_database::Brc20ProgDatabase::get_number_and_index_key"]),
+    _s("D10", "logs_guard", "run", ["C18"], "get_logs range guard and defaults: from := latest, to := from; more than 6 blocks and reversed ranges are refused; otherwise exactly the key range [key(from,0), key(to+1,0)) of the (block,index) table is scanned; no arithmetic panic; an error of the height lookup is passed on",
+       "all 64-bit from / to / latest with every Some/None combination (to < 2^64-1 for the scan and no-panic clauses); the function's entry up to the call of get_range (loop-free), every path enumerated; what the scan and the per-receipt filter then return is outside this obligation",
+       ["db::brc20_prog_database::Brc20ProgDatabase::get_logs (prefix)"]),
+    _s("D6", "guards", "run_reorg_guard", ["C01", "C05"], "database reorg(n): refused with a new error, before any table call or field write, iff the recorded maximum is more than 10 above n; otherwise the first table roll-back is reached; every table roll-back gets n; a failing read of the recorded maximum is passed on; no path returns Ok without rolling back",
+       "all 64-bit n (n <= 2^64-11 for the clauses that add the window), every value of the recorded maximum incl. absent; every MIR path of the function (loop-free), callee bodies not entered, uninterpreted results unconstrained",
+       ["db::brc20_prog_database::Brc20ProgDatabase::reorg", "global::config::MAX_REORG_HISTORY_SIZE"]),
+    _s("D7", "guards", "run_recorded_max", ["C01"], "set_block_hash(n, h): the recorded maximum is overwritten only by a higher block number (with that number), a block above it is never recorded without raising it, and a block whose number or hash exists is rejected before anything is written or cached",
+       "all 64-bit n, every value of the recorded maximum incl. absent; every MIR path of the function (loop-free), callee bodies not entered, uninterpreted results unconstrained; the parse of the stored string is the symbolic 'recorded maximum as parsed'",
+       ["db::brc20_prog_database::Brc20ProgDatabase::set_block_hash"]),
+    _s("D4o.mir", "guards", "run_commit_order", ["C04", "C03"], "commit_changes: on every path the block-number->hash table (the source of the height after a restart) is committed before any versioned table; the first failing commit ends the call with that error and nothing is committed or flushed after it; Ok is only returned after all commits of the complete path",
+       "every MIR path of the function (loop-free); callee bodies not entered, each commit may fail independently (unconstrained result); the field of the block-number->hash table is identified from set_block_hash",
+       ["db::brc20_prog_database::Brc20ProgDatabase::commit_changes", "db::brc20_prog_database::Brc20ProgDatabase::set_block_hash"]),
     _s("L1", "smt_key", "run_l1", ["C13"], "the representation invariant of a key history admits at most 11 versions (W = 10 read from the crate)",
        "all integer block numbers", ["global::config::MAX_REORG_HISTORY_SIZE"]),
 ]
@@ -390,7 +403,7 @@ ACTIVE = ["C01", "C02", "C03", "C04", "C05", "C09", "C11", "C13", "C14", "C15", 
 
 # Obligations whose harness exists but which did not finish under the tier caps on the unchanged tree
 # (DESIGN.md section 11.2): they are NOT registered - no tier runs them, no property counts them.
-UNREGISTERED = {"E3.unknown", "E3.number", "E3.hash", "D4o", "D5", "D6.refuse", "D6.pass", "D7.mono", "D7.follow", "D11"}
+UNREGISTERED = {"D4o", "D5", "D6.refuse", "D6.pass", "D7.mono", "D7.follow", "D11"}
 for _o in OBLIGATIONS:
     if _o["id"] in UNREGISTERED or _o["id"].startswith("D3.") or _o["id"].startswith("D4."):
         _o["tiers_unregistered"] = _o["tiers"]
